@@ -77,6 +77,13 @@ def main():
     except Exception:  # noqa: BLE001
         # an unexpected exception in harness/oracle code is never a violation
         ctx.inconclusive_because('harness error: ' + traceback.format_exc(limit=8)[-2500:])
+    try:
+        from rv.trace import Tracer as _Tracer
+
+        for msg in _Tracer.handler_errors[:3]:
+            ctx.inconclusive_because('monitor handler raised (kept out of the monitored call): ' + msg)
+    except Exception:  # noqa: BLE001
+        pass
     if reach is not None:
         try:
             reach.stop()
